@@ -10,7 +10,7 @@ spelling invariance, invariance under the order of Union members and under the i
 corollaries.  The guard `Ann.okC` is structural; its complement is the union of the recorded regions
 (`emptyFixedTuple`, unresolvable forward references) and of bare / unsupported nodes; top-level
 string annotations have their own regions (`strAnnDeepSubclass`); values with `_asdict` are the region
-`namedtupleVsPlainClass`.  Each region has a negation witness below.
+`namedtupleFieldMismatch` (the former `namedtupleVsPlainClass`, narrowed by the NamedTuple repair).  Each region has a negation witness below.
 -/
 namespace PedVerif.Checker
 
@@ -31,8 +31,8 @@ theorem verdict_exact (env : Env) (orc : Nat → Val → Raw) (hw : WfEnv env) (
     checkType env orc a v = if conforms env a v then .accept else .reject :=
   exact_checkType env orc hw a v hok hwf hp
 
-/-- `verdict_exact` with the two exclusions of `plain` named: no NamedTuple instance (region `namedtupleVsPlainClass`: the `_asdict`
-    branch replaces isinstance) and no one-shot iterator (region `iteratorItemsUnchecked`: accepted whatever its pending items are) -/
+/-- `verdict_exact` with the two exclusions of `plain` named: no NamedTuple instance (region `namedtupleFieldMismatch`: an instance of the
+    annotated NamedTuple class with a non-conforming field value is rejected) and no one-shot iterator (region `iteratorItemsUnchecked`: accepted whatever its pending items are) -/
 theorem verdict_exact_split (env : Env) (orc : Nat → Val → Raw) (hw : WfEnv env) (a : Ann) (v : Val)
     (hok : a.okC env = true ∨ a = .none) (hwf : v.wf env = true) (hnt : v.hasNT = false) (hit : v.hasIter = false) :
     checkType env orc a v = if conforms env a v then .accept else .reject :=
@@ -259,10 +259,20 @@ theorem strAnn_complete (env : Env) (orc : Nat → Val → Raw) (n : NameId) (v 
   | some c => simp only [checkType, cfg_strBranch.1, ↓reduceIte, hc]; simp [hc] at h; simp [h]
 /-- … e.g. an instance of a grandchild of P for the string annotation 'P' -/
 example : conforms envC (.strAnn 7) (.inst 9) = true ∧ checkType envC (fun _ _ => .raisedOther) (.strAnn 7) (.inst 9) = .accept := by decide
-/-- region `namedtupleVsPlainClass`: a NamedTuple instance is rejected for `object` -/
-theorem complete_fails_namedtupleVsPlainClass :
-    conforms envC (.cls 0) (.ntup 10 [20, 21] [.lit (.int 1), .lit (.str [97])]) = true ∧
-    checkType envC (fun _ _ => .raisedOther) (.cls 0) (.ntup 10 [20, 21] [.lit (.int 1), .lit (.str [97])]) = .reject := by decide
+/-- (was region `namedtupleVsPlainClass`, repaired: only a NamedTuple-class annotation takes the NamedTuple block) a NamedTuple
+    instance is accepted for `object`, for `Tuple[int, str]` / `tuple[int, str]` and for its own class (`envN`: 9 = NT1) -/
+theorem fixed_namedtupleVsPlainClass :
+    checkType envN (fun _ _ => .raisedOther) (.cls 0) (.ntup 9 [20, 21] [.lit (.int 1), .lit (.str [97])]) = .accept ∧
+    checkType envN (fun _ _ => .raisedOther) (.tuple .typing [.cls 2, .cls 3]) (.ntup 9 [20, 21] [.lit (.int 1), .lit (.str [97])]) = .accept ∧
+    checkType envN (fun _ _ => .raisedOther) (.tuple .pep585 [.cls 2, .cls 3]) (.ntup 9 [20, 21] [.lit (.int 1), .lit (.str [97])]) = .accept ∧
+    checkType envN (fun _ _ => .raisedOther) (.clsF 9 [20, 21] [.cls 2, .cls 3]) (.ntup 9 [20, 21] [.lit (.int 1), .lit (.str [97])]) = .accept := by decide
+/-- region `namedtupleFieldMismatch` (what is left of it): an instance of the annotated NamedTuple class one of whose field values
+    does not conform to its field annotation is rejected although isinstance holds (pinned by the maintainers' test
+    `test_namedtuple_wrong_field_type`); the guard `v.hasNT = false` of the exactness theorems excludes it -/
+theorem complete_fails_namedtupleFieldMismatch :
+    conforms envN (.clsF 9 [20, 21] [.cls 2, .cls 3]) (.ntup 9 [20, 21] [.lit (.str [120]), .lit (.str [97])]) = true ∧
+    checkType envN (fun _ _ => .raisedOther) (.clsF 9 [20, 21] [.cls 2, .cls 3]) (.ntup 9 [20, 21] [.lit (.str [120]), .lit (.str [97])]) = .reject ∧
+    (Val.ntup 9 [20, 21] [.lit (.str [120]), .lit (.str [97])]).wf envN = true ∧ (Val.ntup 9 [20, 21] [.lit (.str [120]), .lit (.str [97])]).hasIter = false := by decide
 /-- region `emptyFixedTuple`: `()` is rejected (internal error) for `Tuple[()]` -/
 theorem complete_fails_emptyFixedTuple :
     conforms envC (.tuple .typing []) (.tup 5 []) = true ∧
